@@ -291,7 +291,7 @@ class Executor:
             ob.result = smt.Result("unsat", None, 0, 0.0, backend="simplify")
             return
         t = self.sol.time
-        r = self.sol.check(z3.Not(g), timeout_ms=self.ob_timeout_ms if smt.SLOW[0] > 0 else 500)
+        r = self.sol.check(z3.Not(g), timeout_ms=self.ob_timeout_ms if smt.INC_OPEN[0] < smt.INC_OPEN_MAX else 500)
         if r == z3.unsat:
             ob.result = smt.Result("unsat", None, len(st.ctx.facts) + len(st.ctx.qfacts), self.sol.time - t,
                                    backend="z3-ematch-inc")
